@@ -523,8 +523,8 @@ def _pe_tree(rng, srcs, depth, want_len=None):
     if u < 0.87:
         return ("abs", _pe_tree(rng, srcs, depth - 1))
     if u < 0.95:
-        return ("ident", _pe_tree(rng, srcs, depth - 1), rng.choice(["Identity", "Cast", "ReshapeFlat"]))
-    return ("opaque", _pe_tree(rng, srcs, depth - 1))
+        return ("ident", _pe_tree(rng, srcs, depth - 1), rng.choice(["Identity", "Cast", "ReshapeFlat", "SqueezeFlat", "SqueezeAxesFlat", "Reshape0"]))
+    return ("opaque", _pe_tree(rng, srcs, depth - 1), rng.choice(["NegNeg", "UnsqueezeSqueeze", "CastRound", "Reshape2Flat"]))
 
 
 def _pe_coq(t, srcs):
@@ -546,7 +546,8 @@ def _pe_coq(t, srcs):
     if k == "abs":
         return f"(SAbs {_pe_coq(t[1], srcs)})"
     if k == "ident":
-        return _pe_coq(t[1], srcs)       # Identity / Cast(INT64->INT64) / Reshape(v, [-1]) forward the recorded value
+        # Identity / Cast(INT64->INT64) / Reshape(v, [-1] | [0]) / Squeeze(v) forward the recorded value
+        return f"(SKeep {_pe_coq(t[1], srcs)})"
     return f"(SOpaque {_pe_coq(t[1], srcs)})"
 
 
@@ -591,12 +592,34 @@ class _Emit:
                 self.nodes.append(helper.make_node("Identity", [inner], [out]))
             elif t[2] == "Cast":
                 self.nodes.append(helper.make_node("Cast", [inner], [out], to=TensorProto.INT64))
+            elif t[2] == "SqueezeFlat":          # the pytorch symint pattern: Squeeze, then back to 1-D
+                mid = self.fresh("v")
+                self.nodes.append(helper.make_node("Squeeze", [inner], [mid]))
+                self.nodes.append(helper.make_node("Reshape", [mid, self.const([-1])], [out]))
+            elif t[2] == "SqueezeAxesFlat":      # Squeeze with an empty axes list squeezes nothing; a 1-D value stays 1-D
+                mid = self.fresh("v")
+                self.nodes.append(helper.make_node("Squeeze", [inner, self.const([])], [mid]))
+                self.nodes.append(helper.make_node("Reshape", [mid, self.const([-1])], [out]))
+            elif t[2] == "Reshape0":             # 0 = copy the input dim (allowzero = 0): a one-entry target is forwarded
+                self.nodes.append(helper.make_node("Reshape", [inner, self.const([0])], [out]))
             else:
                 self.nodes.append(helper.make_node("Reshape", [inner, self.const([-1])], [out]))
         else:
+            kind = t[2] if len(t) > 2 else "NegNeg"
             mid = self.fresh("v")
-            self.nodes.append(helper.make_node("Neg", [self.emit(t[1])], [mid]))
-            self.nodes.append(helper.make_node("Neg", [mid], [out]))
+            inner = self.emit(t[1])
+            if kind == "UnsqueezeSqueeze":       # Unsqueeze has no partial evaluator: the recorded value is lost
+                self.nodes.append(helper.make_node("Unsqueeze", [inner, self.const([0])], [mid]))
+                self.nodes.append(helper.make_node("Squeeze", [mid, self.const([0])], [out]))
+            elif kind == "CastRound":            # Cast to another element type is not forwarded
+                self.nodes.append(helper.make_node("Cast", [inner], [mid], to=TensorProto.INT32))
+                self.nodes.append(helper.make_node("Cast", [mid], [out], to=TensorProto.INT64))
+            elif kind == "Reshape2Flat":         # a two-entry target is not forwarded (rank changes)
+                self.nodes.append(helper.make_node("Reshape", [inner, self.const([1, -1])], [mid]))
+                self.nodes.append(helper.make_node("Reshape", [mid, self.const([-1])], [out]))
+            else:
+                self.nodes.append(helper.make_node("Neg", [inner], [mid]))
+                self.nodes.append(helper.make_node("Neg", [mid], [out]))
         return out
 
 
@@ -1145,6 +1168,25 @@ def fam_oracle_only(ctx):
                    model([N("Concat", ["x", "y"], ["out"], axis=1)], [vi("x", T, ["N", "M"]), vi("y", T, ["N", 2])], [vi("out", T, ["N", None])])))
     models.append(("squeeze-reshape-1d", {"x": ["N"]},
                    model([N("Squeeze", ["x"], ["q"]), N("Reshape", ["q", "cm1"], ["out"])], [vi("x", T, ["N"])], [vi("out", T, [None])], [c("cm1", [-1])])))
+    # rules listed as "differential only" in coq/Shape/Coverage.v, with symbolic dims around the static ones they read
+    models.append(("reshape-reshape:symbolic-batch", {"x": ["N", 4]},
+                   model([N("Reshape", ["x", "r1"], ["a"]), N("Reshape", ["a", "r2"], ["out"])], [vi("x", T, ["N", 4])], [vi("out", T, [None, None, None])],
+                         [c("r1", [-1, 2]), c("r2", [-1, 2, 2])])))
+    models.append(("reshape-reshape:zero-copies-dim", {"x": ["N", 4]},
+                   model([N("Reshape", ["x", "r1"], ["a"]), N("Reshape", ["a", "r2"], ["out"])], [vi("x", T, ["N", 4])], [vi("out", T, [None, None])],
+                         [c("r1", [-1, 2]), c("r2", [0, 2])])))
+    models.append(("reshape-reshape:annotated-output", {"x": ["N", 6]},
+                   model([N("Reshape", ["x", "r1"], ["a"]), N("Reshape", ["a", "r2"], ["r"]), N("Identity", ["r"], ["out"])], [vi("x", T, ["N", 6])],
+                         [vi("out", T, ["N", 2, 3])], [c("r1", [-1, 3]), c("r2", [-1, 2, 3])])))
+    models.append(("slices-split", {"x": ["N", 4]},
+                   model([N("Slice", ["x", "b0", "e0", "ax"], ["p"]), N("Slice", ["x", "b1", "e1", "ax"], ["q"]), N("Sub", ["p", "q"], ["out"])],
+                         [vi("x", T, ["N", 4])], [vi("out", T, [None, None])], [c("b0", [0]), c("e0", [2]), c("b1", [2]), c("e1", [4]), c("ax", [-1])])))
+    models.append(("split-to-sequence:vector-split", {"x": ["N", 4]},
+                   model([N("SplitToSequence", ["x", "sp"], ["seq"], axis=1), N("SequenceAt", ["seq", "i1"], ["out"])],
+                         [vi("x", T, ["N", 4])], [vi("out", T, [None, None])], [c("sp", [1, 3]), numpy_helper.from_array(np.array(1, dtype=np.int64), "i1")])))
+    models.append(("split-to-sequence:symbolic-axis", {"x": ["N", 2]},
+                   model([N("SplitToSequence", ["x", "sp"], ["seq"], axis=0), N("ConcatFromSequence", ["seq"], ["out"], axis=0)],
+                         [vi("x", T, ["N", 2])], [vi("out", T, [None, None])], [numpy_helper.from_array(np.array(2, dtype=np.int64), "sp")])))
     stats = {"models": len(models), "bindings": 0, "executed": 0, "changed": 0}
     for tag, shapes, host in models:
         try:
@@ -1234,7 +1276,7 @@ def _retuple(t):
             return ("add", _retuple(t[1]), _retuple(t[2]))
         if k == "ident":
             return ("ident", _retuple(t[1]), t[2])
-        return (k, _retuple(t[1]))
+        return (k, _retuple(t[1])) + tuple(t[2:])
     return t
 
 
@@ -1248,7 +1290,14 @@ def run(ctx):
                "onnxruntime and onnx.reference at every executed binding")
     ctx.assume("tensor data is integer valued (int64 / bool), compared exactly")
     ctx.check_props()
-    for fam in FAMILIES:
+    from harness import c09_more
+    for fam in FAMILIES + c09_more.FAMILIES:
         fam(ctx)
     if ctx.tier == "thorough":
         ctx.coqchk(["Props.C09"])
+
+
+def regenerate(ctx):
+    """Translator (fail-closed): who reads shape information in the anchored files -> coq/Gen/ShapeUsers.v."""
+    from harness import c09_users
+    ctx.c09_users = c09_users.regenerate(ctx)
